@@ -644,3 +644,26 @@ func TestOracleInvariance(t *testing.T) {
 	}
 	t.Logf("%d invariance comparisons, %d polygons", cases, len(polys))
 }
+
+// TestKnownMatching covers the KNOWN_FINDINGS.txt line format of the bounded checks.
+func TestKnownMatching(t *testing.T) {
+	m := knownRe.FindStringSubmatch("known: property=C03 bounded=ringseg/ringContainsSegment.edge#lib=true,oracle=false,convex=false,A=vertex,B=*,mid=* F5: text here")
+	if m == nil || m[1] != "C03" || m[2] != "ringseg" || m[4] != "F5: text here" {
+		t.Fatalf("parse: %q", m)
+	}
+	k := known{Property: m[1], Suite: m[2], Function: "ringContainsSegment.edge", Pattern: "lib=true,oracle=false,convex=false,A=vertex,B=*,mid=*"}
+	if !k.matches("ringseg", "ringContainsSegment.edge", "lib=true,oracle=false,convex=false,A=vertex,B=edge,mid=clear") {
+		t.Fatalf("glob must match")
+	}
+	if k.matches("ringseg", "ringContainsSegment.edge", "lib=false,oracle=true,convex=false,A=vertex,B=in,mid=clear") ||
+		k.matches("ringseg", "ringContainsSegment.strict", "lib=true,oracle=false,convex=false,A=vertex,B=edge,mid=clear") ||
+		k.matches("polypoly", "ringContainsSegment.edge", "lib=true,oracle=false,convex=false,A=vertex,B=edge,mid=clear") {
+		t.Fatalf("glob must not match another decision, function or suite")
+	}
+	if !(known{Suite: "lineline", Function: "Line.ContainsLine"}).matches("lineline", "Line.ContainsLine", "anything") {
+		t.Fatalf("no pattern: every decision")
+	}
+	if knownRe.MatchString("known: property=C16 obligation=foo witness=bar text") || knownRe.MatchString("fixed: property=C19 33982ac bounded=x/y") {
+		t.Fatalf("other line kinds must be ignored")
+	}
+}
